@@ -7,6 +7,11 @@
 //!   result: reached(0/1: TLS up and an HTTP response received) asked(0/1: server sent a CertificateRequest)
 //! case 17 2 cert ca events..   events: 0 handshake | 1 good cert ca reload | 2 k use established connection k
 //!   result: per handshake 1 cert_seen asked; per reload 1/0; per use 1 cert_seen | 0
+//! case 17 3 url_host(0 127.0.0.1, 1 localhost) hostname(0 none, 1 localhost, 2 other.example)
+//!           tls_server_name(0 none, 1 localhost, 2 other.example) skip_verify
+//!   the real client (client_main_inner -> ws_connect::handshake) against the TLS listener whose
+//!   certificate (under the client's roots) names only "localhost"
+//!   result: reached(0/1: a local connection through the tunnel gets its bytes echoed)
 use crate::util::*;
 use rcgen::{BasicConstraints, CertificateParams, DnType, ExtendedKeyUsagePurpose, IsCa, Issuer, KeyPair, KeyUsagePurpose};
 use rustls::client::danger::{HandshakeSignatureValid, ServerCertVerified, ServerCertVerifier};
@@ -269,7 +274,50 @@ async fn reload_case(pki: &Pki, tag: &str, c: &[u64]) -> Vec<u64> {
     out
 }
 
+async fn name_case(pki: &Pki, srv: &Server, echo_port: u16, c: &[u64]) -> Vec<u64> {
+    use rusty_penguin_lib::arg::{ClientArgs, Remote, ServerUrl};
+    use std::str::FromStr;
+    let name = |k: u64| match k { 1 => Some("localhost"), 2 => Some("other.example"), _ => None };
+    let url_host = if c[0] == 0 { "127.0.0.1" } else { "localhost" };
+    let lport = TcpListener::bind("127.0.0.1:0").await.unwrap().local_addr().unwrap().port();
+    let args: &'static ClientArgs = Box::leak(Box::new(ClientArgs {
+        server: ServerUrl::from_str(&format!("wss://{url_host}:{}/ws", srv.port)).unwrap(),
+        remote: vec![Remote::from_str(&format!("127.0.0.1:{lport}:127.0.0.1:{echo_port}")).unwrap()],
+        keepalive: penguin_mux::timing::OptionalDuration::NONE,
+        max_retry_count: 1,
+        max_retry_interval: 200,
+        handshake_timeout: Duration::from_secs(3).into(),
+        hostname: name(c[1]).map(http::HeaderValue::from_static),
+        tls_server_name: name(c[2]).map(str::to_string),
+        tls_ca: Some(p(pki.d(), "rootA.pem")),
+        tls_skip_verify: c[3] != 0,
+        ..Default::default()
+    }));
+    let (hr, srx, drx) = rusty_penguin_lib::client::HandlerResources::create();
+    let hr: &'static rusty_penguin_lib::client::HandlerResources = Box::leak(Box::new(hr));
+    let mut client = tokio::spawn(rusty_penguin_lib::client::client_main_inner(args, hr, srx, drx));
+    let probe = async {
+        for _ in 0..300 {
+            if let Ok(mut s) = TcpStream::connect(("127.0.0.1", lport)).await {
+                if s.write_all(b"ping").await.is_ok() {
+                    let mut b = [0u8; 4];
+                    return matches!(tokio::time::timeout(Duration::from_secs(4), s.read_exact(&mut b)).await, Ok(Ok(_))) && &b == b"ping";
+                }
+            }
+            tokio::time::sleep(Duration::from_millis(10)).await;
+        }
+        false
+    };
+    let reached = tokio::select! {
+        _ = &mut client => false,
+        r = probe => r,
+    };
+    client.abort();
+    vec![u64::from(reached)]
+}
+
 pub struct Ctx {
+    echo_port: u16,
     rt: tokio::runtime::Runtime,
     pki: Pki,
     servers: Vec<Server>,
@@ -289,7 +337,20 @@ impl Ctx {
             }
             v
         });
-        Self { rt, pki, servers, n: std::cell::Cell::new(0) }
+        let echo_port = rt.block_on(async {
+            let l = TcpListener::bind("127.0.0.1:0").await.unwrap();
+            let port = l.local_addr().unwrap().port();
+            tokio::spawn(async move {
+                while let Ok((mut s, _)) = l.accept().await {
+                    tokio::spawn(async move {
+                        let (mut r, mut w) = s.split();
+                        let _ = tokio::io::copy(&mut r, &mut w).await;
+                    });
+                }
+            });
+            port
+        });
+        Self { echo_port, rt, pki, servers, n: std::cell::Cell::new(0) }
     }
     pub fn run_case(&self, c: &[u64]) -> Vec<u64> {
         match c.first() {
@@ -298,6 +359,7 @@ impl Ctx {
                 self.n.set(self.n.get() + 1);
                 self.rt.block_on(reload_case(&self.pki, &format!("r{}", self.n.get()), &c[1..]))
             }
+            Some(3) if c.len() == 5 => self.rt.block_on(name_case(&self.pki, &self.servers[0], self.echo_port, &c[1..])),
             _ => vec![999_999],
         }
     }
@@ -315,6 +377,17 @@ pub fn generate(a: &Args, out: &mut Out) {
                         let r = ctx.run_case(&c[1..]);
                         out.emit(&c, &r);
                     }
+                }
+            }
+        }
+    }
+    for url in 0..2u64 {
+        for hn in 0..3u64 {
+            for sni in 0..3u64 {
+                for sk in 0..2u64 {
+                    let c = vec![17, 3, url, hn, sni, sk];
+                    let r = ctx.run_case(&c[1..]);
+                    out.emit(&c, &r);
                 }
             }
         }
